@@ -56,7 +56,24 @@ func writePkg(root string, rel, name string, files [][]string) {
 	for i, imps := range files {
 		var sb strings.Builder
 		fmt.Fprintf(&sb, "package %s\n\n", name)
-		if len(imps) > 0 {
+		// one import declaration, one per import, or two groups (all of them legal at the top of a file)
+		switch style := (len(imps) + i + len(name)) % 3; {
+		case len(imps) == 0:
+		case style == 1 && len(imps) > 1:
+			for _, im := range imps {
+				fmt.Fprintf(&sb, "import %q\n", im)
+			}
+			sb.WriteString("\n")
+		case style == 2 && len(imps) > 1:
+			h := len(imps) / 2
+			for _, part := range [][]string{imps[:h], imps[h:]} {
+				sb.WriteString("import (\n")
+				for _, im := range part {
+					fmt.Fprintf(&sb, "\t%q\n", im)
+				}
+				sb.WriteString(")\n\n")
+			}
+		default:
 			sb.WriteString("import (\n")
 			for _, im := range imps {
 				fmt.Fprintf(&sb, "\t%q\n", im)
